@@ -44,9 +44,17 @@ type Schema struct {
 	Fix func(p *spec.Packet)
 }
 
-var strLens = []int{0, 5, 1, 2, 127, 128, 16383, 16384, 65534, 65535}
-var u16s = []uint32{0, 0x0102, 1, 255, 256, 65535}
-var u32s = []uint32{0, 0x01020304, 1, 65535, 65536, 0xffffffff}
+// strLens: index 0 empty, 1 the primary length; then the varint/length-prefix
+// steps, the 8/15/16-bit boundaries and the extremes. weirdLen marks the
+// value whose CONTENT is unusual (control bytes, invalid UTF-8, wildcard
+// and format characters) rather than its length.
+var strLens = []int{0, 5, 1, 2, 127, 128, 255, 256, 16383, 16384, 32767, 32768, 65534, 65535, weirdLen}
+
+const weirdLen = -1
+
+var weirdContent = []byte("\x00\xff+$%s%!\n\"\\ \xc3")
+var u16s = []uint32{0, 0x0102, 1, 255, 256, 32767, 32768, 65535}
+var u32s = []uint32{0, 0x01020304, 1, 65535, 65536, 0x7fffffff, 0x80000000, 0xffffffff}
 var subIDs = []uint32{0, 258, 1, 127, 128, 16383, 16384, 2097151, 2097152, 268435455}
 
 // Content returns a byte string of length n whose content identifies the
@@ -55,6 +63,9 @@ var subIDs = []uint32{0, 258, 1, 127, 128, 16383, 16384, 2097151, 2097152, 26843
 func Content(tag byte, n int) []byte {
 	if n == 0 {
 		return nil
+	}
+	if n == weirdLen {
+		return append([]byte{tag}, weirdContent...)
 	}
 	cyc := []byte{'a', '/', '#', 0xc3, 0xa9}
 	b := make([]byte, n)
@@ -123,7 +134,17 @@ func seqs(k, maxLen int) [][]int {
 	return out
 }
 
-var seq33 = seqs(3, 3) // 40 sequences
+// 40 sequences of length <= 3, plus two lists of 17 elements (beyond the
+// small capacities append grows through: 1,2,4,8,16)
+var seq33 = func() [][]int {
+	s := seqs(3, 3)
+	same := make([]int, 17)
+	mixed := make([]int, 17)
+	for i := range mixed {
+		mixed[i] = i % 3
+	}
+	return append(s, same, mixed)
+}()
 // primary list value: the two-element sequence [0,1] (same key twice for
 // user properties)
 var seqPrimary = func() int {
@@ -652,3 +673,11 @@ func WireView(p *spec.Packet) *spec.Packet {
 	q.Will.Props = keep
 	return q
 }
+
+// StrLenAt returns the length denoted by value index i of a string slot
+// (weirdLen, -1, for the unusual-content value).
+func StrLenAt(i int) int { return strLens[i] }
+
+// NumStrLens is the domain size of string slots; NumSeqs of list slots.
+var NumStrLens = len(strLens)
+var NumSeqs = len(seq33)
